@@ -320,6 +320,15 @@ class Inliner(object):
             hnd.body = self.block(hnd.body, in_class, self_name)
         # expression-bodied helpers anywhere in the statement's own expressions
         st = self.expr_calls(st, in_class)
+        # a helper with a body of several statements called inside a larger expression: its result is computed in front of the statement, when nothing
+        # else in the expression can observe the order (no other call, no comprehension, no lambda)
+        hoisted = self.hoist_nested(st, in_class)
+        if hoisted is not None:
+            pre, st = hoisted
+            out_pre = []
+            for ps in pre:
+                out_pre.extend(self.stmt(ps, in_class, self_name))
+            return out_pre + self.stmt(st, in_class, self_name)
         call = None
         sink = None
         if isinstance(st, ast.Expr) and isinstance(st.value, ast.Call):
@@ -352,6 +361,45 @@ class Inliner(object):
                     # the spliced body may itself call helpers
                     return self.block(new, in_class, self_name) if self.depth_ok() else new
         return [st]
+
+    def hoist_nested(self, st, in_class):
+        if not isinstance(st, (ast.Return, ast.Assign, ast.Expr, ast.AugAssign)) or getattr(st, 'value', None) is None:
+            return None
+        top = st.value
+        nested = []
+        for n in ast.walk(top):
+            if n is top:
+                continue
+            if isinstance(n, (ast.Lambda, ast.ListComp, ast.SetComp, ast.DictComp, ast.GeneratorExp, ast.IfExp, ast.BoolOp)):
+                return None          # conditional evaluation: the call may not happen at all
+            if isinstance(n, ast.Call):
+                h, recv = self.callee(n, in_class)
+                if h is None or not h.ok or h.generator or h.expr_body is not None or self.recursive(h):
+                    return None      # another call whose order against the helper could matter
+                nested.append(n)
+        if not nested or isinstance(top, ast.Call) and self.callee(top, in_class)[0] is None and True is False:
+            return None
+        if isinstance(top, ast.Call) and self.callee(top, in_class)[0] is None:
+            return None              # the statement's own call is not a helper: its evaluation order against the hoisted one is not known
+        pre = []
+        mapping = {}
+        for n in nested:
+            self.counter[0] += 1
+            tmp = '__hoisted%d' % self.counter[0]
+            mapping[id(n)] = tmp
+            a = ast.Assign(targets=[ast.Name(id=tmp, ctx=ast.Store())], value=n)
+            ast.copy_location(a, st)
+            ast.fix_missing_locations(a)
+            pre.append(a)
+
+        class R(ast.NodeTransformer):
+            def visit_Call(self, n):
+                if id(n) in mapping:
+                    return ast.copy_location(ast.Name(id=mapping[id(n)], ctx=ast.Load()), n)
+                self.generic_visit(n)
+                return n
+        st.value = R().visit(top)
+        return pre, st
 
     _depth = 0
 
